@@ -784,7 +784,17 @@ pub fn gen_c03(thorough: bool, rng: &mut Rng, out: &mut Vec<String>) {
     let n = if thorough { 40000 } else { 4000 };
     let extras: [u8; 8] = [0x39, 0x3A, 0x3B, 0x1F, 0x20, 0x23, 0x22, 0x36];
     for i in 0..n {
-        let lib = gen_spec_lib(rng);
+        let mut lib = gen_spec_lib(rng);
+        if i % 40 == 12 {
+            // records near the 16-bit length limit: XY with 4097 / 8190 / 8191 points, strings of 32766 / 40001 / 65530 bytes
+            let npts = [4096usize, 4097, 8190, 8191][rng.below(4) as usize];
+            let slen = [32766usize, 32768, 40001, 65530][rng.below(4) as usize];
+            let mut st = GdsStruct::new("big");
+            st.dates = lib.dates.clone();
+            st.elems.push(GdsElement::GdsBoundary(GdsBoundary { layer: 1, datatype: 2, xy: (0..npts).map(|k| GdsPoint::new(k as i32, -(k as i32))).collect(), ..Default::default() }));
+            st.elems.push(GdsElement::GdsTextElem(GdsTextElem { string: "s".repeat(slen), layer: 3, texttype: 4, xy: GdsPoint::new(1, 2), ..Default::default() }));
+            lib.structs.push(st);
+        }
         let trailing: Vec<u8> = match rng.below(6) {
             0 => vec![],
             1 => vec![0; 2 * rng.below(20) as usize],
